@@ -25,7 +25,7 @@ ASSUMPTIONS = ["a slow constructor (sleep) is a legitimate application behaviour
 REQUIRED_REACH = ["single_ok", "session_ok", "percall_ok", "creator_counts_ok", "failing_creator_ok", "racing_first_calls", "session_instances_dropped", "schedules_explored", "multi_daemon_ok", "oneway_first_requests"]
 SHARD_TIMEOUT = {"quick": 240, "thorough": 2800}
 SHAPES = ["truthy", "falsy_len", "falsy_bool", "eq_always"]
-CREATORS = ["none", "ok", "raises", "wrongtype", "subclass"]     # subclass: the creator returns an instance of a subclass (allowed by the daemon's isinstance check)
+CREATORS = ["none", "ok", "raises", "raises_type", "wrongtype", "subclass"]     # subclass: the creator returns an instance of a subclass (allowed by the daemon's isinstance check)
 
 
 class Book:
@@ -40,6 +40,7 @@ class Book:
         self.serving = []         # (instance serial, conn serial, call no)
         self.refs = {}            # instance serial -> weakref
         self.oneway_done = 0
+        self.creator_without_class = 0
 
 
 def make_class(P, mode, shape, creator, slow=0.0):
@@ -84,11 +85,15 @@ def make_class(P, mode, shape, creator, slow=0.0):
 
     subcls = []
 
-    def mk(cls):
+    def mk(cls=None):
         with book.lock:
             book.creator_calls += 1
+            if cls is None:
+                book.creator_without_class += 1
         if creator == "raises":
             raise RuntimeError("creator failed")
+        if creator == "raises_type":
+            raise TypeError("creator failed with a TypeError of its own")
         if creator == "wrongtype":
             return "not an instance"
         if creator == "subclass":
@@ -167,7 +172,10 @@ def socket_case(fx, mode, shape, creator, nconn, ncalls, rec, r, sername, race):
             return
         calls = [(i, c, res) for i in range(nconn) for c, res in enumerate(results.get(i, []))]
         ok_calls = [(i, c, res) for i, c, res in calls if res[0] != "exc"]
-        failing = creator in ("raises", "wrongtype")
+        failing = creator in ("raises", "raises_type", "wrongtype")
+        if book.creator_without_class:
+            rec.violation("creator-call-count", "%s/%s: the instance creator was invoked %d time(s) without the class argument" % (mode, shape, book.creator_without_class), pay)
+            return
         with book.lock:
             created, ccalls, cres, serving = list(book.created), book.creator_calls, book.creator_results, list(book.serving)
         if failing:
